@@ -447,10 +447,9 @@ def validate_traces(progs, case_events, workdir, chunks=8, timeout=1500):
     """case_events: list of (case id, [normalised events]). Splits into chunks validated by parallel TLC runs.
     Returns (list of bad records, total events, list of TlcResult)."""
     os.makedirs(workdir, exist_ok=True)
-    pf = os.path.join(workdir, "progs.json")
-    if not os.path.exists(pf):
-        with open(pf, "w") as f:
-            json.dump(progs, f)
+    pf = os.path.join(workdir, "trace_progs.json")      # always the programs the case indices (pi) refer to
+    with open(pf, "w") as f:
+        json.dump(progs, f)
     total = sum(len(ev) for _, ev in case_events)
     if total == 0:
         return [], 0, []
